@@ -107,10 +107,20 @@ class SnapshotManager:
         if sequence_number is None:
             sequence_number = base_metadata.last_sequence_number + 1
 
+        # Snapshot timestamps must not run backwards along the commit order:
+        # time travel and retention order snapshots by timestamp, so a commit
+        # stamped earlier than its predecessor (clock stepped back, or writers
+        # on hosts with skewed clocks) would hide the latest committed state
+        # from "as of" reads at any later time.
+        now_ms = int(datetime.now().timestamp() * 1000)
+        timestamp_ms = max(
+            [now_ms] + [s.timestamp_ms for s in base_metadata.snapshots]
+        )
+
         # Create new snapshot
         snapshot = Snapshot(
             snapshot_id=snapshot_id,
-            timestamp_ms=int(datetime.now().timestamp() * 1000),
+            timestamp_ms=timestamp_ms,
             manifest_list=manifest_list_path,
             parent_snapshot_id=parent_snapshot_id,
             operation=operation,
